@@ -29,6 +29,8 @@ FAMILIES = [
     (['abaca', 'acaba', 'b', 'abaca x'], ['acaba', 'abaca', 'abaca', 'c', 'acaba', 'abaca x']),
     # tokens that differ only in letter case / accents, with equal frequencies (ties in the token order)
     (['The cat', 'the Cat sat', 'THE é', 'sat The'], ['the cat', 'The e', 'cat The the', 'É the']),
+    # several tokenless values on both sides (more than one per chunk)
+    (['', 'a', ' ', 'a b'], ['', ' ', 'a', '', 'b a', '  ']),
 ]
 UNSTABLE = ('ftables:Prefix', 'ftables:Position', 'ftables:Suffix')
 
@@ -168,6 +170,8 @@ def w_perm(job):
     for ik in ('rev', 'str', 'dup'):
         for ex in (False, True):
             variants.append(('index=%s extra columns=%s' % (ik, ex), dict(index=ik, extra=ex)))
+    variants.append(('unrelated column in front of the right table only', dict(front=True)))
+    variants.append(('derived frames (rows re-selected from frames that were already joined)', dict(derived=True)))
     variants.append(('repeated call', dict()))
     if cand is None and lv:
         # self-join: passing one DataFrame object as both tables must equal passing a copy of it
@@ -187,6 +191,15 @@ def w_perm(job):
     for name, v in variants:
         L = frame(lv, 'l', v.get('index', 'range'), v.get('extra', False), v.get('lorder'))
         R = frame(rv, 'r', v.get('index', 'range'), v.get('extra', False), v.get('rorder'))
+        if v.get('front') and len(rv):
+            R.insert(0, 'aa_front', ['y%d' % i for i in range(len(rv))])
+        if v.get('derived') and len(lv) and len(rv):
+            # bigger frames are used in a call first; the frames under test are row selections of them
+            bigL = pd.concat([frame(['zz q'], 'l', keys=[999]), L])
+            bigR = pd.concat([R, frame(['q zz'], 'r', keys=['zz9'])])
+            run_ep(ep, bigL, bigR, 1, am=True) if cand is None else None
+            L = bigL.iloc[1:]
+            R = bigR.iloc[:-1]
         out = run_ep(ep, L, R, 1, am=True, cand=cand)
         calls += 1
         cases += 1
@@ -367,6 +380,8 @@ def layers(tier):
         for (op_, t_) in ops:
             for fi in (0, 1):
                 jobs.append({'ep': ep, 'family': fi, 'n_jobs': [2, 3, 4, -1], 'bound': 1, 'op': op_, 't': t_})
+    for ep in JOIN_EPS + FTABLE_EPS:
+        jobs.append({'ep': ep, 'family': 8, 'n_jobs': [2, 3, 4], 'bound': 1})
     for (op_, t_) in (('>', 1), ('=', 1)):
         jobs.append({'ep': 'ftables:Overlap', 'family': 0, 'n_jobs': [2, 3, 5], 'bound': 1, 'op': op_, 't': t_})
     Ls.append(Layer('schedules', 'checks.c10:w_sched', jobs,
@@ -385,7 +400,7 @@ def layers(tier):
                     'sizes): no row lost or duplicated' % (nmax - 1), min_nontrivial=1000, chunksize=1))
     jobs = [{'ep': ep, 'family': fi} for ep in ALL_EPS for fi in (1, 5, 2, 3)] + \
         [{'ep': ep, 'family': 6} for ep in ('join:EDIT_DISTANCE', 'join:JACCARD', 'candset:Size', 'matcher')] + \
-        [{'ep': ep, 'family': 7} for ep in ALL_EPS]
+        [{'ep': ep, 'family': 7} for ep in ALL_EPS] + [{'ep': ep, 'family': 8} for ep in ALL_EPS]
     Ls.append(Layer('presentation', 'checks.c10:w_perm', jobs,
                     'n_jobs=1: all row permutations of either table (3x4-row family: 6+24, plus joint ones), '
                     'index relabelings (reversed, string, duplicate labels), unrelated extra columns, repeated '
